@@ -413,7 +413,7 @@ def rule_N4(ctx):
     def sanctioned(g, seen=()):
         """One of the setters / registry writers, or a private helper that only they (transitively) call."""
         g = root_of(g)
-        if ctx.rk(g.key) in GLOBAL_WRITERS or (g.cls in ('Options', '_MyModuleType') and (g.key.endswith('@setter') or g.name in ('__init__', '__new__'))):
+        if ctx.reason_key(GLOBAL_WRITERS, g.key) is not None or (g.cls in ('Options', '_MyModuleType') and (g.key.endswith('@setter') or g.name in ('__init__', '__new__'))):
             return True
         if not g.name.startswith('_') or g.name.startswith('__') or g.key in seen:
             return False
